@@ -13,6 +13,7 @@ def check(rep):
     n = PR.rule_translation(ctx, rid="C03.ALIGNED-LISTS", focus="groups")
     rep.floor("shapes whose group lists were compared", n, 150)
     PR.rule_coercions(ctx, rid="C03.WEIGHT-VALUES", fields={"group_weight"})
+    PR.rule_renderers(ctx, rid="C03.NUMBER-RENDER", kinds=("int", "float"))
     rep.assume("NOT decided: floating-point rounding of u*total against the float prefix sums (numerical behaviour over runtime values)")
     return ("Decides the shape conditions without which the partition is wrong at a boundary: right bisection on prefix sums of the "
             "weights in declared order, limited to [0, n-1]; u = k-bit integer / 2^k (so u<1, on the grid); population and weights "
